@@ -323,6 +323,9 @@ theorem default_cap_room (c : Cfg) (hv : Valid c) (l : Int) (hl : c.interfaces.g
   rw [getLast?_eq_getElem?] at hl
   exact pairwise_lt_getElem hv.sorted (by omega) ha hl
 
+example : Valid { good with cap := none } ∧ ({ good with cap := none } : Cfg).interfaces.getLast? = some 4 :=
+  ⟨accept_sound_nocap _ (by decide) rfl, by decide⟩
+
 /-- Conversely the code rejects nothing the property allows, except through its two extra
     rules (quantis together with a non-zero λ₋₁, and the gromacs `input_path` rule). -/
 theorem valid_accepted (c : Cfg) (hv : Valid c)
@@ -398,7 +401,9 @@ theorem invalid_rejected_partial (c : Cfg) (hinv : ¬ Valid c)
   | ok u => cases u; exact absurd (accept_sound_partial c hc hcap) hinv
   | error e => rw [reject_is_config_error_partial c e hi hk hc]
 
-example : ¬ Valid { good with interfaces := [0, 4, 2] } := by
+example : ¬ Valid { good with interfaces := [0, 4, 2] } ∧
+    check { good with interfaces := [0, 4, 2] } = .error .config := by
+  refine ⟨?_, by decide⟩
   intro hv
   have := hv.sorted
   simp at this
